@@ -57,12 +57,12 @@ theorem fold_props (hor : A.bin .or = 0) (hand : A.bin .and = 0) :
   | [], acc, _, ha => by simp [foldBranches, kPairs, countPairs, ha]
   | (c, r) :: rest, acc, hp, ha => by
     simp only [wfPairs, Bool.and_eq_true] at hp
-    have hw := wf_convert truthy c r acc hp.1.1 hp.1.2 ha
-    have ih := fold_props hor hand rest (convertIfBranch truthy c r acc) hp.2 hw
-    have hk := kE_convert truthy c r acc
-    have hcnt := count_convert A truthy hor hand c r acc
+    have ih := fold_props hor hand rest acc hp.2 ha
+    have hw := wf_convert truthy c r (foldBranches truthy rest acc) hp.1.1 hp.1.2 ih.1
+    have hk := kE_convert truthy c r (foldBranches truthy rest acc)
+    have hcnt := count_convert A truthy hor hand c r (foldBranches truthy rest acc)
     simp only [foldBranches, kPairs, countPairs, List.length_cons]
-    refine ⟨ih.1, ?_, ?_⟩ <;> omega
+    refine ⟨hw, ?_, ?_⟩ <;> omega
 
 theorem shallowF_ifx (f : FnBody) : shallowF ifExpressionCensus f = 0 := by
   cases f; simp [shallowF, ifExpressionCensus]
